@@ -29,6 +29,7 @@ import (
 	"cosmossdk.io/math"
 	"github.com/cosmos/cosmos-sdk/types/query"
 
+	orbitertypes "github.com/noble-assets/orbiter/v2/types"
 	dispatchertypes "github.com/noble-assets/orbiter/v2/types/component/dispatcher"
 	"github.com/noble-assets/orbiter/v2/types/core"
 )
@@ -183,7 +184,7 @@ func (d *Dispatcher) GetDispatchedAmountsBySourceProtocolID(
 	protocolID core.ProtocolID,
 	pagination *query.PageRequest,
 ) ([]*dispatchertypes.DispatchedAmountEntry, *query.PageResponse, error) {
-	amounts, pageRes, err := query.CollectionPaginate(
+	amounts, pageRes, err := orbitertypes.CollectionPaginate(
 		ctx,
 		d.dispatchedAmounts,
 		pagination,
@@ -212,7 +213,7 @@ func (d *Dispatcher) GetDispatchedAmountsByDestinationProtocolID(
 	protocolID core.ProtocolID,
 	pagination *query.PageRequest,
 ) ([]*dispatchertypes.DispatchedAmountEntry, *query.PageResponse, error) {
-	amounts, pageRes, err := query.CollectionPaginate[collections.Pair[int32, DispatchedAmountsKey], collections.NoValue](
+	amounts, pageRes, err := orbitertypes.CollectionPaginate[collections.Pair[int32, DispatchedAmountsKey], collections.NoValue](
 		ctx,
 		d.dispatchedAmounts.Indexes.ByDestinationProtocolID,
 		pagination,
@@ -430,7 +431,7 @@ func (d *Dispatcher) GetDispatchedCountsBySourceProtocolID(
 	id core.ProtocolID,
 	pagination *query.PageRequest,
 ) ([]*dispatchertypes.DispatchCountEntry, *query.PageResponse, error) {
-	counts, pageRes, err := query.CollectionPaginate(
+	counts, pageRes, err := orbitertypes.CollectionPaginate(
 		ctx,
 		d.dispatchedCounts,
 		pagination,
@@ -459,7 +460,7 @@ func (d *Dispatcher) GetDispatchedCountsByDestinationProtocolID(
 	id core.ProtocolID,
 	pagination *query.PageRequest,
 ) ([]*dispatchertypes.DispatchCountEntry, *query.PageResponse, error) {
-	counts, pageRes, err := query.CollectionPaginate[collections.Pair[int32, DispatchedCountsKey], collections.NoValue](
+	counts, pageRes, err := orbitertypes.CollectionPaginate[collections.Pair[int32, DispatchedCountsKey], collections.NoValue](
 		ctx,
 		d.dispatchedCounts.Indexes.ByDestinationProtocolID,
 		pagination,
